@@ -65,7 +65,7 @@ def check_numeric(sg, an, orig_numbers, spglib_judge=True):
     return msgs
 
 
-def conc_check(sg, occ, vals, orig_order):
+def conc_check(sg, occ, vals, orig_order, supercell=False):
     from ase import Atoms
     pos, nums = [], []
     for (letter, Z), v in zip(occ, vals):
@@ -76,6 +76,9 @@ def conc_check(sg, occ, vals, orig_order):
         pos = [pos[i] for i in orig_order]
         nums = [nums[i] for i in orig_order]
     at = Atoms(numbers=nums, scaled_positions=pos, cell=np.array(S.std_lattice(sg), dtype=float), pbc=True)
+    if supercell:
+        at = at.repeat((2, 1, 1))
+        nums = list(at.get_atomic_numbers())
     msgs = []
     try:
         an = SA.SymmetryAnalyzer(at, symmetry_tol=1e-4)
@@ -85,7 +88,7 @@ def conc_check(sg, occ, vals, orig_order):
         msgs = [f"raised {type(ex).__name__}: {ex}"]
     if msgs:
         return msgs
-    ds = S.concrete_dataset(sg, occ, vals, orig_order=orig_order)
+    ds = S.concrete_dataset(sg, occ, vals, orig_order=orig_order, orig_supercell=supercell)
     ses = S.RealSession([ds])
     with ses.active():
         try:
@@ -103,8 +106,10 @@ def make_fn(sg, occs):
     def fn(e):
         occ = e.pick(occs)
         n = sum(len(S.orbit(sg, l)) for l, _ in occ)
-        orig_order = None if n < 2 else e.pick([None, list(range(n))[::-1]])
-        ds = S.make_dataset(e, sg, occ, orig_order=orig_order)
+        orig_order = None if n < 2 else e.pick([None, list(range(n))[::-1], "supercell"])
+        sup = orig_order == "supercell"
+        orig_order = None if sup else orig_order
+        ds = S.make_dataset(e, sg, occ, orig_order=orig_order, orig_supercell=sup)
         ses = S.Session([ds])
         exc = None
         with ses.active():
@@ -120,9 +125,9 @@ def make_fn(sg, occs):
 
         def cex(env):
             vals = [[float(S.concrete(np.array([x], dtype=object), env)[0]) if isinstance(x, SReal) else float(x) for x in p] for p in ds["_params"]]
-            msgs = conc_check(sg, occ, vals, orig_order)
+            msgs = conc_check(sg, occ, vals, orig_order, sup)
             return {"key": f"H12:sg{sg}:{cex.label}", "what": f"space group {sg}, occupation {occ}: " + "; ".join(msgs[:4]),
-                    "replay": {"kind": "primitive", "sg": sg, "occupation": [list(o) for o in occ], "params": vals, "orig_order": orig_order}, "reproduced": bool(msgs)}
+                    "replay": {"kind": "primitive", "sg": sg, "occupation": [list(o) for o in occ], "params": vals, "orig_order": orig_order, "supercell": sup}, "reproduced": bool(msgs)}
 
         def mk(label):
             def c(env):
@@ -188,10 +193,12 @@ def make_fn(sg, occs):
                okc and all(hits.get(j, 0) == mult for j in range(npm)), mk("atoms-congruent"))
         cell_same = all(bool(a == b) for a, b in zip(np.ravel(cc_cell), np.ravel(ds.std_lattice)))
         e.post("conventional lattice is the standardized lattice", cell_same, mk("conv-lattice"))
-        e.validate_with(lambda env: S.validate_against_real(sg, ds, env, S.tkey(np.asarray(an._best_transform["transformation"])), conv.get_scaled_positions(wrap=False),
-                                                             trip["conventional"][0], orig_order=orig_order))
+        if not sup:
+            e.validate_with(lambda env: S.validate_against_real(sg, ds, env, S.tkey(np.asarray(an._best_transform["transformation"])), conv.get_scaled_positions(wrap=False),
+                                                                 trip["conventional"][0], orig_order=orig_order))
         e.reach(f"H12:centring:{S.make_dataset.__name__ and __import__('spglib').get_spacegroup_type(RG.std_hall(sg)).international_short[0]}")
-        e.sample({"space_group": sg, "occupation": occ, "orig_order": "reversed" if orig_order else "as standardized", "primitive_vectors": [[str(v) for v in r] for r in Pq]})
+        e.reach("H12:supercell-original" if sup else "H12:cell-original")
+        e.sample({"space_group": sg, "occupation": occ, "orig_order": "2x1x1 supercell" if sup else ("reversed" if orig_order else "as standardized"), "primitive_vectors": [[str(v) for v in r] for r in Pq]})
     return fn
 
 
@@ -225,14 +232,14 @@ def main(tier, seed, only=None):
     if not only:
         rep.require_reached(*[f"H12:centring:{c}" for c in "PACIFR"])
     rep.bounds = {"space_groups": len(groups), "occupations": nocc, "orbits": "quick: <= 2 orbits for groups with <= 12 Wyckoff letters, 1 otherwise; thorough: <= 3 / 2",
-                  "original system": "the standardized cell with its atoms in standard or reversed order (mappings consistent with that order)"}
+                  "original system": "the standardized cell with its atoms in standard or reversed order, or its 2x1x1 supercell (mappings consistent with that description)"}
     rep.stubs = ["SpglibContract dataset (mapping_to_primitive, std_mapping_to_primitive, crystallographic_orbits, wyckoffs consistent with the Hall-database orbits and centring classes)",
                  "StubAtoms / StubSystem", "numpy proxy (exact inverse)"]
     rep.assumptions = ["spglib's mappings are as documented", "centring translations of the standard setting = pure translations of the Hall-database group"]
-    rep.outside = ["'is itself primitive / same space group' as judged by spglib (checked only in the concrete replay)", "original systems that are genuine supercells"]
+    rep.outside = ["'is itself primitive / same space group' as judged by spglib (checked only in the concrete replay)", "original systems in sheared bases (enter only through spglib)"]
     return rep.finish()
 
 
 def replay(d):
-    msgs = conc_check(d["sg"], [tuple(o) for o in d["occupation"]], d["params"], d.get("orig_order"))
+    msgs = conc_check(d["sg"], [tuple(o) for o in d["occupation"]], d["params"], d.get("orig_order"), d.get("supercell", False))
     return bool(msgs), "; ".join(msgs[:6]) or "ok"
